@@ -659,6 +659,21 @@ class Engine(ValueOps, ExprOps, CallOps, StmtOps):
                               % (self.cls_in('r', self.family_classes(fam)), new_arr, old_arr, new_arr), 'wf')
                 elif it.startswith('heap:'):
                     self.havoc_heap([it[5:]])
+                elif it.startswith('new:'):
+                    # changes only on objects / lists allocated since the function was entered (everything older is kept)
+                    attr = it[4:]
+                    if attr == 'SEQ':
+                        old_arr = self.seqheap()
+                        new_arr = st.decls.const('SEQ', '(Array Int Int)')
+                        st.seqh = new_arr
+                        st.bump('SEQ')
+                        st.assume("(forall ((r Int)) (! (=> (< r %s) (= (select %s r) (select %s r))) :pattern ((select %s r))))"
+                                  % (self.alloc0, new_arr, old_arr, new_arr), 'wf')
+                    else:
+                        old_arr = st.heap_arr(attr)
+                        self.havoc_heap([attr])
+                        st.assume("(forall ((r Int)) (! (=> (< r %s) (= (select %s r) (select %s r))) :pattern ((select %s r))))"
+                                  % (self.alloc0, st.heap[attr], old_arr, st.heap[attr]), 'wf')
                 elif it.startswith('fresh:'):
                     # the attribute changes on objects allocated since (by the loop / callee) only: older objects keep it
                     attr = it[6:]
@@ -983,7 +998,7 @@ class Engine(ValueOps, ExprOps, CallOps, StmtOps):
                 famwhole.setdefault(a, []).append(f)
             elif it.startswith('heap:'):
                 whole.add(it[5:])
-            elif it.startswith('dict(') or it.startswith('list(') or it.startswith('ghost:') or it.startswith('fresh:') or it == 'alloc':
+            elif it.startswith('dict(') or it.startswith('list(') or it.startswith('ghost:') or it.startswith('fresh:') or it.startswith('new:') or it == 'alloc':
                 continue
             else:
                 node = ast.parse(it, mode='eval').body
